@@ -1395,3 +1395,303 @@ Proof.
     rewrite run_snoc in Ho. rewrite Hb, Ho. cbn. rewrite !Z.eqb_refl. reflexivity.
 Qed.
 
+(* --- the checker on the model's own observations: the transition clauses -------------------------- *)
+Definition ev_sid (e : event) : option sid :=
+  match e with SLookup s _ | STrack s | SStart s | SEnd s => Some s | _ => None end.
+
+Lemma sw_frame r e s : ev_sid e <> Some s -> get s (sw (step r e)) = get s (sw r).
+Proof.
+  intros H. destruct e as [c pe cl|c|s0 p0|s0|s0|s0|p0 s0|bp]; unfold step, step_with; cbn [ev_sid] in H.
+  - rewrite (proj1 (sw_add_peer r c pe cl)). reflexivity.
+  - rewrite (proj1 (sw_disconnected r c)). reflexivity.
+  - assert (s <> s0) by congruence. destruct (get s0 (sw r)); [reflexivity|].
+    destruct (get_peer r p0); cbn [sw with_sw]; msimpl; reflexivity.
+  - assert (s <> s0) by congruence. destruct (get s0 (sw r)) as [[q pe0|q pe0 f|q pe0| |]|]; try reflexivity.
+    unfold add_stream. cbn [streams with_ctxs with_streams].
+    destruct (get q (streams r)); cbn [orb negb sw with_sw with_streams with_ctxs]; msimpl; reflexivity.
+  - assert (s <> s0) by congruence. destruct (get s0 (sw r)) as [[q pe0|q pe0 f|q pe0| |]|]; try reflexivity.
+    cbn [sw with_sw with_started]. msimpl. reflexivity.
+  - assert (s <> s0) by congruence. destruct (get s0 (sw r)) as [[q pe0|q pe0 f|q pe0| |]|]; try reflexivity;
+      cbn [sw with_sw]; rewrite (proj1 (rs_fields r q s0)); msimpl; reflexivity.
+  - rewrite (proj1 (rs_fields r p0 s0)). reflexivity.
+  - reflexivity.
+Qed.
+
+(* what each wrapper event does to the state of its own stream *)
+Lemma sw_lookup r s p :
+  get s (sw (step r (SLookup s p))) =
+  match get s (sw r) with
+  | Some st => Some st
+  | None => match get p (overlays r) with Some pe => Some (SwLooked p pe) | None => Some SwReset end
+  end.
+Proof.
+  unfold step, step_with, get_peer. destruct (get s (sw r)) eqn:E; [exact E|].
+  destruct (get p (overlays r)); cbn [sw with_sw]; apply get_put_same.
+Qed.
+Lemma sw_track r s :
+  get s (sw (step r (STrack s))) =
+  match get s (sw r) with
+  | Some (SwLooked p pe) =>
+      if has p (streams r) then Some (SwTracked p pe (has p (overlays r))) else Some SwReset
+  | o => o
+  end.
+Proof.
+  unfold step, step_with. destruct (get s (sw r)) as [[q pe0|q pe0 f|q pe0| |]|] eqn:E; try exact E.
+  unfold add_stream, has. cbn [streams with_ctxs with_streams].
+  destruct (get q (streams r)); cbn [orb negb sw with_sw with_streams with_ctxs overlays]; apply get_put_same.
+Qed.
+Lemma sw_start r s :
+  get s (sw (step r (SStart s))) =
+  match get s (sw r) with Some (SwTracked p pe _) => Some (SwStarted p pe) | o => o end.
+Proof.
+  unfold step, step_with. destruct (get s (sw r)) as [[q pe0|q pe0 f|q pe0| |]|] eqn:E; try exact E.
+  cbn [sw with_sw with_started]. apply get_put_same.
+Qed.
+Lemma sw_end r s :
+  get s (sw (step r (SEnd s))) =
+  match get s (sw r) with Some (SwTracked _ _ _) | Some (SwStarted _ _) => Some SwEnded | o => o end.
+Proof.
+  unfold step, step_with. destruct (get s (sw r)) as [[q pe0|q pe0 f|q pe0| |]|] eqn:E; try exact E;
+    cbn [sw with_sw]; apply get_put_same.
+Qed.
+
+Lemma option_eq_dec_sid (o : option sid) (s : sid) : {o = Some s} + {o <> Some s}.
+Proof. destruct o as [x|]; [destruct (N.eq_dec x s) as [->|H]; [left; reflexivity|right; congruence]|right; discriminate]. Qed.
+
+Lemma sw_own (e : event) s : ev_sid e = Some s ->
+  (exists p, e = SLookup s p) \/ e = STrack s \/ e = SStart s \/ e = SEnd s.
+Proof. destruct e; cbn; intros [= <-]; eauto. Qed.
+
+Lemma sw_never_removed r e s : get s (sw r) <> None -> get s (sw (step r e)) <> None.
+Proof.
+  intros H. destruct (option_eq_dec_sid (ev_sid e) s) as [Ho|Hn]; [|rewrite sw_frame by exact Hn; exact H].
+  destruct (sw_own e s Ho) as [[p0 ->] | [-> | [-> | ->]]].
+  - rewrite sw_lookup. destruct (get s (sw r)); [discriminate|contradiction].
+  - rewrite sw_track. destruct (get s (sw r)) as [[q pe0|q pe0 f|q pe0| |]|]; try discriminate; try contradiction.
+    destruct (has q (streams r)); discriminate.
+  - rewrite sw_start. destruct (get s (sw r)) as [[q pe0|q pe0 f|q pe0| |]|]; try discriminate; contradiction.
+  - rewrite sw_end. destruct (get s (sw r)) as [[q pe0|q pe0 f|q pe0| |]|]; try discriminate; contradiction.
+Qed.
+
+Lemma stream_peer_snoc h e s :
+  stream_peer (h ++ [e]) s =
+  match stream_peer h s with
+  | Some q => Some q
+  | None => match e with SLookup s' p => if s' =? s then Some p else None | _ => None end
+  end.
+Proof.
+  unfold stream_peer. rewrite fold_left_app. cbn [fold_left].
+  destruct (fold_left _ h None); destruct e; reflexivity.
+Qed.
+
+(* a stream that has been looked up has a wrapper state, for ever *)
+Lemma stream_peer_sw evs s q : stream_peer evs s = Some q -> get s (sw (run evs)) <> None.
+Proof.
+  revert q. induction evs as [|e l IH] using rev_ind; intros q; [discriminate|].
+  rewrite stream_peer_snoc, run_snoc. destruct (stream_peer l s) as [q0|] eqn:E.
+  - intros _. apply sw_never_removed. eapply (IH q0). reflexivity.
+  - destruct e as [c pe cl|c|s0 p0|s0|s0|s0|p0 s0|bp]; try discriminate.
+    destruct (s0 =? s) eqn:Es; [|discriminate]. apply N.eqb_eq in Es. subst s0. intros _.
+    rewrite sw_lookup. destruct (get s (sw (run l))); [discriminate|].
+    destruct (get p0 (overlays (run l))); discriminate.
+Qed.
+
+Lemma sw_stream_peer evs s st p pe :
+  get s (sw (run evs)) = Some st -> sw_ident st = Some (p, pe) -> stream_peer evs s = Some p.
+Proof.
+  revert st. induction evs as [|e l IH] using rev_ind; intros st H Hid; [discriminate|].
+  rewrite run_snoc in H. rewrite stream_peer_snoc.
+  destruct (sw_step _ _ _ _ _ _ H Hid) as [(st0 & H0 & Hid0)|(-> & H0 & Ho)].
+  - rewrite (IH st0 H0 Hid0). reflexivity.
+  - destruct (stream_peer l s) as [q|] eqn:E.
+    + exfalso. exact (stream_peer_sw l s q E H0).
+    + rewrite N.eqb_refl. reflexivity.
+Qed.
+
+(* handler invocations: appended by SStart from the tracked state, otherwise unchanged *)
+Lemma started_eq r e :
+  started (step r e) = started r ++
+    match e with
+    | SStart s => match get s (sw r) with Some (SwTracked p pe f) => [(s, p, pe, f)] | _ => [] end
+    | _ => []
+    end.
+Proof.
+  destruct e as [c pe0 cl|c|s0 p0|s0|s0|s0|p0 s0|bp]; unfold step, step_with; rewrite ?app_nil_r.
+  - apply (proj2 (sw_add_peer r c pe0 cl)).
+  - apply (proj2 (sw_disconnected r c)).
+  - destruct (get s0 (sw r)); [reflexivity|]. destruct (get_peer r p0); reflexivity.
+  - destruct (get s0 (sw r)) as [[q pe0|q pe0 f0|q pe0| |]|]; try reflexivity.
+    unfold add_stream. cbn [streams with_ctxs with_streams]. destruct (get q (streams r)); reflexivity.
+  - destruct (get s0 (sw r)) as [[q pe0|q pe0 f0|q pe0| |]|]; rewrite ?app_nil_r; reflexivity.
+  - destruct (get s0 (sw r)) as [[q pe0|q pe0 f0|q pe0| |]|]; try reflexivity;
+      cbn [started with_sw]; apply (proj2 (rs_fields r q s0)).
+  - apply (proj2 (rs_fields r p0 s0)).
+  - reflexivity.
+Qed.
+
+Lemma started_has evs s p pe :
+  get s (sw (run evs)) = Some (SwStarted p pe) -> exists f, In (s, p, pe, f) (started (run evs)).
+Proof.
+  induction evs as [|e l IH] using rev_ind; intros H; [discriminate|].
+  rewrite run_snoc in *. rewrite started_eq.
+  destruct (option_eq_dec_sid (ev_sid e) s) as [Ho|Hn].
+  2:{ rewrite sw_frame in H by exact Hn. destruct (IH H) as [f Hf]. exists f. apply in_or_app. left. exact Hf. }
+  destruct (sw_own e s Ho) as [[p0 ->] | [-> | [-> | ->]]].
+  - rewrite sw_lookup in H. destruct (get s (sw (run l))) as [st|] eqn:E.
+    + injection H as ->. destruct (IH eq_refl) as [f Hf]. exists f. apply in_or_app. left. exact Hf.
+    + destruct (get p0 (overlays (run l))); discriminate.
+  - rewrite sw_track in H. destruct (get s (sw (run l))) as [[q pe0|q pe0 f|q pe0| |]|] eqn:E; try discriminate.
+    + destruct (has q (streams (run l))); discriminate.
+    + injection H as -> ->. destruct (IH eq_refl) as [f Hf]. exists f. apply in_or_app. left. exact Hf.
+  - rewrite sw_start in H. destruct (get s (sw (run l))) as [[q pe0|q pe0 f|q pe0| |]|] eqn:E; try discriminate.
+    + injection H as -> ->. exists f. apply in_or_app. right. left. reflexivity.
+    + injection H as -> ->. destruct (IH eq_refl) as [f Hf]. exists f. apply in_or_app. left. exact Hf.
+  - rewrite sw_end in H. destruct (get s (sw (run l))) as [[q pe0|q pe0 f|q pe0| |]|] eqn:E; discriminate.
+Qed.
+
+(* Disconnected either leaves registrations and notifications alone or removes exactly one peer
+   and emits exactly its record *)
+Lemma disconnected_cases hist c : wf hist ->
+  let r := run hist in let r' := disconnected r c in
+  (overlays r' = overlays r /\ notes r' = notes r) \/
+  (exists pe, get (remote c) (overlays r) = Some pe /\ overlays r' = del (remote c) (overlays r) /\
+              notes r' = notes r ++ [pe]).
+Proof.
+  intros Hwf. destruct (inv_run hist Hwf) as [HA _]. cbn zeta. unfold disconnected.
+  destruct (get (remote c) (conns (run hist))) as [cs|] eqn:Ec; [|left; split; reflexivity].
+  destruct (conn_del c cs); [|left; split; reflexivity].
+  destruct (get (remote c) (overlays (run hist))) as [pe|] eqn:Eo.
+  - right. exists pe. repeat split; reflexivity.
+  - exfalso. apply (a_co _ _ HA) in Eo. congruence.
+Qed.
+
+Lemma overlays_other_events r e : (forall c, e <> ConnClosed c) ->
+  forall p, registered r p = true -> registered (step r e) p = true.
+Proof.
+  intros Hne p Hr. destruct (stream_event e) eqn:Hs.
+  - destruct (frame_stream_event r e Hs) as (H & _). unfold registered. rewrite H. exact Hr.
+  - destruct e as [c pe cl|c|s0 p0|s0|s0|s0|p0 s0|bp]; cbn in Hs; try discriminate.
+    + unfold step, step_with, add_peer, add_peer_open, registered in *. destruct cl; [exact Hr|].
+      destruct (has (p_addr pe) (underlays r)); cbn [fst overlays]; [exact Hr|].
+      apply has_get. destruct (N.eq_dec p (remote c)) as [->|Hn]; msimpl; [discriminate|apply has_get, Hr].
+    + exfalso. exact (Hne c eq_refl).
+Qed.
+
+Definition sbounded (np ns : N) (evs : list event) : Prop :=
+  forall s p, In (SLookup s p) evs -> s < ns /\ p < np.
+
+Lemma cell_sw_model np na ns r s : s < ns -> cell (sn_sw (snap_of np na ns r)) s = sw_code (get s (sw r)).
+Proof. intros H. unfold cell, snap_of. cbn [sn_sw]. rewrite nth_upto by exact H. reflexivity. Qed.
+Lemma cell_ctx_model np na ns r s : s < ns ->
+  cell (sn_ctx (snap_of np na ns r)) s =
+  if existsb (fun x => match x with (s', _, _, _) => (s' =? s)%N end) (started r)
+      || match get s (sw r) with Some (SwTracked _ _ _) => true | _ => false end
+  then (if ctx_cancelled r s then 2%Z else 1%Z) else 0%Z.
+Proof. intros H. unfold cell, snap_of. cbn [sn_ctx]. rewrite nth_upto by exact H. reflexivity. Qed.
+
+Lemma flat_map_nil {A B : Type} (f : A -> list B) l : (forall q, In q l -> f q = []) -> flat_map f l = [].
+Proof.
+  induction l as [|a r IH]; intros H; [reflexivity|]. cbn. rewrite (H a (or_introl eq_refl)). cbn.
+  apply IH. intros q Hq. apply H. right. exact Hq.
+Qed.
+Lemma drop_prefix_app l x : drop_prefix l (l ++ x) = Some x.
+Proof. induction l as [|a r IH]; [reflexivity|]. cbn. rewrite Z.eqb_refl. exact IH. Qed.
+Lemma drop_prefix_same l : drop_prefix l l = Some [].
+Proof. rewrite <- (app_nil_r l) at 2. apply drop_prefix_app. Qed.
+Lemma flat_map_single {A : Type} (f : N -> list A) n p x :
+  p < n -> f p = x -> (forall q, q <> p -> f q = []) -> flat_map f (upto n) = x.
+Proof.
+  intros Hp Hf Ho. unfold upto.
+  assert (G : forall m k, (k <= N.to_nat p < k + m)%nat -> flat_map f (map N.of_nat (seq k m)) = x).
+  { induction m as [|m IH]; intros k Hk; [lia|]. cbn [seq map flat_map].
+    destruct (Nat.eq_dec k (N.to_nat p)) as [->|Hne].
+    - rewrite N2Nat.id, Hf.
+      rewrite (flat_map_nil f (map N.of_nat (seq (S (N.to_nat p)) m))); [apply app_nil_r|].
+      intros q Hq. apply in_map_iff in Hq. destruct Hq as (j & <- & Hj). apply in_seq in Hj. apply Ho. lia.
+    - rewrite (Ho (N.of_nat k)) by lia. cbn. apply IH. lia. }
+  apply G. lia.
+Qed.
+
+Lemma classic_conn_closed (e : event) : (exists c, e = ConnClosed c) \/ (forall c, e <> ConnClosed c).
+Proof. destruct e; try (right; discriminate). left. eauto. Qed.
+
+Lemma check_notes_model np nc na ns hist e :
+  wf (hist ++ [e]) -> bounded np nc na (hist ++ [e]) ->
+  check_notes np (snap_of np na ns (run hist)) (snap_of np na ns (step (run hist) e)) = true.
+Proof.
+  intros Hwf Hb. assert (Hwh : wf hist) by apply (wf_prefix _ _ Hwf).
+  unfold check_notes. set (r := run hist). set (r' := step r e).
+  assert (Hcase : (notes r' = notes r /\ (forall q, registered r q = true -> registered r' q = true)) \/
+                  (exists c pe, e = ConnClosed c /\ get (remote c) (overlays r) = Some pe /\
+                                overlays r' = del (remote c) (overlays r) /\ notes r' = notes r ++ [pe])).
+  { destruct (classic_conn_closed e) as [[c ->]|Hne].
+    - destruct (disconnected_cases hist c Hwh) as [[H1 H2]|(pe & H1 & H2 & H3)].
+      + left. split; [exact H2|]. intros q Hq. unfold registered, r', r, step, step_with in *. rewrite H1. exact Hq.
+      + right. exists c, pe. auto.
+    - left. split; [|apply overlays_other_events, Hne].
+      unfold r', r. rewrite <- run_snoc. apply notes_other_events; assumption. }
+  cbn [sn_notes snap_of]. destruct Hcase as [[Hn Hm]|(c & pe & -> & Ho & Hd & Hn)].
+  - fold r r'. rewrite Hn, drop_prefix_same. rewrite flat_map_nil; [reflexivity|].
+    intros q Hq. apply In_upto in Hq. rewrite !reg_in_model by exact Hq.
+    destruct (registered r q) eqn:Eq; [|reflexivity]. rewrite (Hm q Eq). reflexivity.
+  - fold r r'. rewrite Hn, flat_map_app, drop_prefix_app. cbn [flat_map]. rewrite app_nil_r.
+    assert (Hp : remote c < np).
+    { destruct (inv_run hist Hwh) as [HA _]. destruct (a_prov _ _ HA _ _ Ho) as [k Hk].
+      apply enrolments_In in Hk. assert (Hk' : In ((remote c, k), pe) (enrolments (hist ++ [ConnClosed c]))).
+      { rewrite enrolments_app. apply in_or_app. left. exact Hk. }
+      apply (Hb _ _ Hk'). }
+    rewrite (flat_map_single _ np (remote c) [Z.of_N (p_addr pe); p_role pe]); [apply zlist_eqb_refl|exact Hp| |].
+    + rewrite !reg_in_model by exact Hp. rewrite row_over_model by exact Hp. unfold registered, has.
+      fold r. rewrite Ho. fold r'. rewrite Hd, get_del_same. reflexivity.
+    + intros q Hq. destruct (N.lt_ge_cases q np) as [Hlt|Hge].
+      * rewrite !reg_in_model by exact Hlt. unfold registered, has. fold r r'. rewrite Hd.
+        rewrite get_del_other by exact Hq. destruct (get q (overlays r)); reflexivity.
+      * unfold reg_in, row, snap_of. cbn [sn_over]. rewrite !nth_overflow by (rewrite map_length; unfold upto; rewrite map_length, seq_length; lia).
+        reflexivity.
+Qed.
+
+Lemma looked_at_in evs s p pe : looked_at evs s p pe -> In (SLookup s p) evs.
+Proof. intros (pre & post & -> & _). apply in_or_app. right. left. reflexivity. Qed.
+
+Lemma check_ctx_model np na ns evs :
+  wf evs -> sbounded np ns evs -> check_ctx ns evs (snap_of np na ns (run evs)) = true.
+Proof.
+  intros Hwf Hsb. unfold check_ctx. apply forallb_forall. intros s Hs. apply In_upto in Hs.
+  rewrite cell_sw_model by exact Hs.
+  destruct (get s (sw (run evs))) as [[q pe|q pe f|q pe| |]|] eqn:E; cbn [sw_code Z.eqb orb]; try reflexivity.
+  - (* tracked *)
+    rewrite (sw_stream_peer evs s _ q pe E eq_refl).
+    assert (Hq : q < np) by (apply (Hsb s q), (looked_at_in evs s q pe), (sw_looked_at evs s _ q pe E eq_refl)).
+    rewrite reg_in_model by exact Hq. rewrite cell_ctx_model by exact Hs. rewrite E.
+    assert (Hr : running (run evs) s q = true) by (unfold running; rewrite E; apply N.eqb_refl).
+    destruct (running_registered_or_cancelled evs Hwf s q Hr) as [H|H]; rewrite H; [reflexivity|].
+    match goal with |- context [existsb ?g (started (run evs))] => destruct (existsb g (started (run evs))) end; cbn; apply orb_true_r.
+  - (* handler running *)
+    rewrite (sw_stream_peer evs s _ q pe E eq_refl).
+    assert (Hq : q < np) by (apply (Hsb s q), (looked_at_in evs s q pe), (sw_looked_at evs s _ q pe E eq_refl)).
+    rewrite reg_in_model by exact Hq. rewrite cell_ctx_model by exact Hs.
+    destruct (started_has evs s q pe E) as [f Hf].
+    assert (Hex : existsb (fun x => match x with (s', _, _, _) => s' =? s end) (started (run evs)) = true).
+    { apply existsb_exists. exists (s, q, pe, f). split; [exact Hf|apply N.eqb_refl]. }
+    rewrite Hex. cbn [orb].
+    assert (Hr : running (run evs) s q = true) by (unfold running; rewrite E; apply N.eqb_refl).
+    destruct (running_registered_or_cancelled evs Hwf s q Hr) as [H|H]; rewrite H; [reflexivity|apply orb_true_r].
+Qed.
+
+(* the reset clause: a new stream from an unregistered peer *)
+Lemma reset_clause_model np na ns r s p : s < ns -> p < np ->
+  (if (cell (sn_sw (snap_of np na ns r)) s =? 0)%Z && negb (reg_in (snap_of np na ns r) p)
+   then (cell (sn_sw (snap_of np na ns (step r (SLookup s p)))) s =? 4)%Z else true) = true.
+Proof.
+  intros Hs Hp. rewrite !cell_sw_model by exact Hs. rewrite reg_in_model by exact Hp. rewrite sw_lookup.
+  destruct (get s (sw r)) as [st|]; [destruct st; reflexivity|]. cbn [sw_code Z.eqb andb].
+  unfold registered, has. destruct (get p (overlays r)); reflexivity.
+Qed.
+
+
+(* non-vacuity: a history on which every one of these clauses is exercised *)
+Example ex_clauses :
+  check_notes 3 (snap_of 3 10 6 (run ex_history)) (snap_of 3 10 6 (step (run ex_history) (ConnClosed (1, 1)))) = true /\
+  check_ctx 6 ex_history (snap_of 3 10 6 (run ex_history)) = true /\
+  sn_notes (snap_of 3 10 6 (step (run ex_history) (ConnClosed (1, 1)))) = [7%Z; 1%Z].
+Proof. repeat split; vm_compute; reflexivity. Qed.
